@@ -17,7 +17,7 @@ translator regenerates, for every consumer of the solver in __main__.py, the dec
   e2e    = solve_end_to_end(path_ctx)       (look-up, solver, refinement)
 
 for <who> in {stuck, setup, assert}; whether the consumer's output is handed to
-append_unsat_core (gen_stuck_learns); and the test `result != unsat` that counts a stuck path.
+append_unsat_core (never: census); and the test `result != unsat` that counts a stuck path.
 Census, fail-closed: every other mention of check_unsat_cores / unsat_cores / append_unsat_core /
 solve_low_level / solve_end_to_end / refine / is_refined in __main__.py raises TranslateError.
 """
@@ -141,6 +141,32 @@ def check_path_ctx(fn, who, var, query_ok, before):
     return kw
 
 
+def result_test(node, who):
+    """`<v>.result != unsat` and equivalent spellings -> (v, Gallina over is_unsat)"""
+    neg = False
+    if isinstance(node, ast.UnaryOp) and isinstance(node.op, ast.Not):
+        neg, node = True, node.operand
+    if isinstance(node, ast.Compare) and len(node.ops) == 1:
+        l, r, op = node.left, node.comparators[0], node.ops[0]
+        if ast.unparse(l) == "unsat":
+            l, r = r, l
+        if ast.unparse(r) == "unsat" and isinstance(l, ast.Attribute) and l.attr == "result" and isinstance(l.value, ast.Name):
+            if isinstance(op, (ast.NotEq, ast.IsNot)):
+                return l.value.id, ("is_unsat" if neg else "negb is_unsat")
+            if isinstance(op, (ast.Eq, ast.Is)):
+                return l.value.id, ("negb is_unsat" if neg else "is_unsat")
+    _fail(node, f"{who}: unsupported test on the solver output")
+
+
+def pc_var(node, who):
+    """the variable passed to the solver functions below node (one name; `path_ctx` if there is no such call)"""
+    names = {ast.unparse(c.args[0]) for c in ast.walk(node) if isinstance(c, ast.Call) and isinstance(c.func, ast.Name)
+             and c.func.id in ("solve_low_level", "solve_end_to_end") and len(c.args) == 1 and isinstance(c.args[0], ast.Name)}
+    if len(names) > 1:
+        _fail(node, f"{who}: solver calls on several PathContext variables")
+    return names.pop() if names else "path_ctx"
+
+
 # ----------------------------------------------------------------- run_test: the stuck arm
 
 def tr_stuck(tree):
@@ -164,9 +190,15 @@ def tr_stuck(tree):
     if len(tries) != 1:
         _fail(arm, "run_test/stuck: expected one try block around the solver call")
     tr = tries[0]
-    kw = check_path_ctx(arm, "run_test/stuck", "path_ctx", ("ex.path.to_smt2(args)",), tr)
-    sv = Solve("run_test/stuck", "path_ctx", ("ctx.solving_ctx.unsat_cores", "path_ctx.solving_ctx.unsat_cores"))
-    g = sv.stmts(tr.body, "solver_output")
+    # after the try: `if <out>.result != unsat: stuck.append(...)` -- names the variable holding the output
+    after = arm.body[arm.body.index(tr) + 1:]
+    if len(after) != 1 or not isinstance(after[0], ast.If) or after[0].orelse:
+        _fail(arm, "run_test/stuck: expected exactly `if <output>.result != unsat: stuck.append(..)` after the try")
+    out_var, counted = result_test(after[0].test, "run_test/stuck")
+    pc = pc_var(tr, "run_test/stuck")
+    kw = check_path_ctx(arm, "run_test/stuck", pc, ("ex.path.to_smt2(args)",), tr)
+    sv = Solve("run_test/stuck", pc, ("ctx.solving_ctx.unsat_cores", f"{pc}.solving_ctx.unsat_cores"))
+    g = sv.stmts(tr.body, out_var)
     # handlers: may only build an error output (C05's subject); they must not touch the cache
     for h in tr.handlers:
         w = [n for n, _ in watched(h)]
@@ -174,15 +206,6 @@ def tr_stuck(tree):
             _fail(w[0], "run_test/stuck: exception handler mentions the solver/cache")
     if tr.orelse or tr.finalbody:
         _fail(tr, "run_test/stuck: try with else/finally")
-    # after the try: `if solver_output.result != unsat: stuck.append(...)`
-    after = arm.body[arm.body.index(tr) + 1:]
-    if len(after) != 1 or not isinstance(after[0], ast.If) or after[0].orelse:
-        _fail(arm, "run_test/stuck: expected exactly `if solver_output.result != unsat: stuck.append(..)` after the try")
-    t = ast.unparse(after[0].test)
-    if t in ("solver_output.result != unsat", "unsat != solver_output.result", "not solver_output.result == unsat"):
-        counted = "negb is_unsat"
-    else:
-        _fail(after[0], "run_test/stuck: unsupported test for counting a stuck path")
     ap = [n for n in ast.walk(after[0]) if isinstance(n, ast.Call) and ast.unparse(n.func) == "stuck.append"]
     if len(ap) != 1 or after[0].body[0].value is not ap[0]:
         _fail(after[0], "run_test/stuck: the counting arm must start with stuck.append(..)")
@@ -205,17 +228,22 @@ def tr_stuck(tree):
 def tr_setup(tree):
     fn = find_function(tree, "setup")
     calls = [(n, name) for n, name in watched(fn)]
-    assigns = [s for s in ast.walk(fn) if isinstance(s, ast.Assign) and len(s.targets) == 1 and isinstance(s.targets[0], ast.Name)
-               and s.targets[0].id == "solver_output"]
+    assigns = [s for s in ast.walk(fn) if isinstance(s, ast.Assign) and len(s.targets) == 1 and isinstance(s.targets[0], ast.Name) and watched(s.value)]
     if len(assigns) != 1:
-        raise TranslateError(f"setup: expected one `solver_output = ...`, found {len(assigns)}")
+        raise TranslateError(f"setup: expected one `<output> = <solver call>`, found {len(assigns)}")
     a = assigns[0]
-    check_path_ctx(fn, "setup", "path_ctx", ("query",), a)
+    out_var = a.targets[0].id
+    pc = pc_var(a, "setup")
+    check_path_ctx(fn, "setup", pc, ("query",), a)
+    # the path is kept when `<output>.result != unsat`
+    tests = [n for n in ast.walk(fn) if isinstance(n, ast.If) and any(isinstance(x, ast.Name) and x.id == out_var for x in ast.walk(n.test))]
+    if len(tests) != 1 or result_test(tests[0].test, "setup") != (out_var, "negb is_unsat"):
+        raise TranslateError("setup: expected one `if <output>.result != unsat:` deciding whether the setUp path is kept")
     # `query` there is the loop variable over setup_exs_no_error, filled with setup_ex.path.to_smt2(args)
     fills = [n for n in ast.walk(fn) if isinstance(n, ast.Call) and ast.unparse(n.func) == "setup_exs_no_error.append"]
     if len(fills) != 1 or ast.unparse(fills[0].args[0]) != "(setup_ex, setup_ex.path.to_smt2(args))":
         raise TranslateError("setup: setup_exs_no_error must be filled with (setup_ex, setup_ex.path.to_smt2(args))")
-    sv = Solve("setup", "path_ctx", ("ctx.solving_ctx.unsat_cores", "path_ctx.solving_ctx.unsat_cores"))
+    sv = Solve("setup", pc, ("ctx.solving_ctx.unsat_cores", f"{pc}.solving_ctx.unsat_cores"))
     g = sv.expr(a.value)
     for n, name in calls:
         if id(n) not in sv.used:
